@@ -129,6 +129,11 @@ func (fc *FnCtx) callFunction(callee *ssa.Function, args []Val, binds []Val, pos
 	if r, ok := fc.specialCall(callee, args, pos, resT); ok {
 		return r
 	}
+	if callee.Signature.Recv() != nil && len(args) > 0 && fc.eng.inRepo(callee) {
+		if _, ok := args[0].T.Underlying().(*types.Pointer); ok {
+			fc.oblige("nil", "recv", ptrNonNil(args[0]), pos, "method call on nil receiver")
+		}
+	}
 	c := fc.eng.contracts[key]
 	if c != nil {
 		return fc.applyContract(callee, c, args, binds, pos, resT, "true", short)
@@ -816,7 +821,7 @@ func (fc *FnCtx) specialInvoke(cc *ssa.CallCommon, recv Val, args []Val, pos tok
 
 // sorted keys helper
 func sortedKeys(m map[string]bool) []string {
-	var out []string
+	out := []string{}
 	for k := range m {
 		out = append(out, k)
 	}
